@@ -50,11 +50,7 @@ def matchesName (p n : Name) : Bool :=
 
 /-- specificity: 0 exact, 1 local name only, 2 namespace only, 3 wildcard -/
 def rank (p : Name) : Nat :=
-  match p.space == "", p.loc == "" with
-  | false, false => 0
-  | true, false => 1
-  | false, true => 2
-  | true, true => 3
+  (if p.space == "" then 1 else 0) + (if p.loc == "" then 2 else 0)
 
 /-! ### registration (`mux/option.go`) -/
 
